@@ -19,6 +19,7 @@ def c05(ctx: Ctx):
     if ctx.replay:
         write_ndjson(cases, [ctx.replay["violation"]["c"]])
     else:
+        ctx.tlc("MC_C05", "MC_C05.cfg", label="D decoder designs (ParamDecode) vs Wire")
         ctx.tlc("Gen_C05", "Gen_C05.cfg", label="D Wire injective + F generate cases")
         n = ctx.unquote(ctx.spec("cases.ndjson"), cases)
         log("[gen] %d cases" % n)
